@@ -230,6 +230,8 @@ def build2(case):
     add(['REM', 'c02', 'by-construction', 'file'])
     add(['REM', 'sentinels', 'follow', 'the', 'line', 'under', 'test'])
     if pos == 'instr':
+        for b in case.get('before', []):      # an earlier valid instruction whose object the handler of the line under test reads (DEFS)
+            add(b)
         for _ in range(case.get('repeat', 1)):      # the same instruction several times in a row (what its handler leaves behind)
             place(line, 'test')
     add(['L.S.', '10'])
@@ -475,7 +477,7 @@ def _evaluate(ctx, cases, workdir):
         sent = set(want_atoms)
         last = nphys - 1
         ctx.count([st, case.get('kwtext', case['kw']), case['toks'], case['pos'], case.get('symm', True), case.get('wrap', False), case.get('via'),
-                   case.get('header'), case.get('layout'), case.get('ambient'), case.get('repeat')],
+                   case.get('header'), case.get('layout'), case.get('ambient'), case.get('repeat'), case.get('before')],
                   nontrivial=acc['branch'] not in ('none', 'else') or case['pos'] == 'frag',
                   tags=[st, 'kw:' + kw, 'pos:' + case['pos'], 'spelling:' + case.get('spell', 'plain'), 'via:' + case.get('via', 'read_string'), 'layout:' + case.get('lname', 'plain'), 'branch:' + acc['branch'][:24], 'nparams:%d' % len(kinds)] +
                        ['impl-inner:%s' % family(obs['quiet']['inner'])],
@@ -800,6 +802,26 @@ def repeat_cases(valid):
     return out
 
 
+def context_cases(valid):
+    """every body instruction (bare and longest form) behind every form of DEFS: its handler meets the DEFS object an
+    earlier valid line left in force (restraints read their default esds from it), whichever parameters that line omitted"""
+    plain = [c for c in valid if not (c.get('spell') or c.get('kwtext') or c.get('via') or c.get('layout') is not None) and c['pos'] == 'instr']
+    defs = {}
+    for c in plain:
+        if c['kw'] == 'DEFS':
+            defs[len(c['toks'])] = c
+    pick = {}
+    for c in plain:
+        lo, hi = pick.get(c['kw'], (c, c))
+        pick[c['kw']] = (c if len(c['toks']) < len(lo['toks']) else lo, c if len(c['toks']) > len(hi['toks']) else hi)
+    out = []
+    for kw, (lo, hi) in pick.items():
+        for c in ([lo] if lo is hi else [lo, hi]):
+            for n, d in sorted(defs.items()):
+                out.append(dict(c, before=[['DEFS'] + list(d['toks'])], spell=f'behind-DEFS/{n}'))
+    return out
+
+
 # ----------------------------------------------------------------------------------------------------------------
 # physical layout of valid lines
 
@@ -1001,7 +1023,7 @@ def include_mutants(valid):
 
 def run(ctx):
     ctx.rule = ('one case = one instruction line (keyword, concrete tokens, residue suffix) at one position of a by-construction file, '
-                'parsed in quiet, verbose and debug mode (or one header history / one physical layout of such a line / the line repeated); '
+                'parsed in quiet, verbose and debug mode (or one header history / one physical layout of such a line / the line repeated / the line behind each form of DEFS); '
                 'distinct by (keyword text, tokens, position, header variant, header history, layout, repetition); non-trivial = the '
                 'line is dispatched to a branch of _parse_cards other than the final else (it reaches a handler that indexes / converts '
                 'tokens or constructs a card) or is a FRAG block; near/mutant cases: distinct by text')
@@ -1021,6 +1043,7 @@ def run(ctx):
     ctx.extra['product'] = ('every keyword x every form of the syntax table x every position x 3 modes; every path through the header grammar with '
                             'each slot <= %d times; every keyword (longest form) and atom shape x %d physical layouts (exhaustive in both tiers)' % (HEADER_REP, len(LAYOUTS)))
     valid += repeat_cases(valid)
+    valid += context_cases(valid)
     valid += header_cases(tab)
     valid += layout_cases(tab, valid, ctx.rng, ctx.budget(300, 6000))
     near = near_cases(ctx.rng, valid, ctx.budget(600, 6000))
